@@ -21,7 +21,11 @@ RULE = ("1..3 detection rules x 1..2 filters; detection names from {sel, filter,
         "id / name / any / empty / non-matching; repeated loads (fresh random prefix each time); distinct = distinct "
         "(rules, filters); non-trivial = at least one filter applies to at least one rule"
         "; rule references by UUID in other spellings; 30% converted through a pipeline that prefixes every field name"
-        "; log sources with a definition text; filters sharing a title")
+        "; log sources with a definition text; filters sharing a title"
+        "; load stream: the documents in any order (filter documents before, between, after the rules), loaded by from_dicts / "
+        "from_yaml / SigmaCollection(objects) / collect_filters + apply_filters, rules carrying metadata (status, level, date, "
+        "tags, author, ...) and — loaded with collect_errors=True — metadata values that are collected as errors while log "
+        "source and detection stay valid")
 ASSUMPTIONS = c01.ASSUMPTIONS[:2] + [
     "a rule selector whose pattern starts with '_' may capture the filter's internal names (recorded finding D10b); not generated except in its own sub-stream",
 ]
@@ -95,6 +99,33 @@ def gen_case(rnd):
     return {"rules": rules, "filters": filters}
 
 
+META_OK = {"status": ["test", "stable", "experimental"], "level": ["low", "high", "critical"], "date": ["2024-01-31", "2023-12-01"],
+           "modified": ["2024-02-01"], "tags": [["attack.t1059"], ["attack.execution", "cve.2024-1234"]], "author": ["someone"],
+           "description": ["a description"], "falsepositives": [["none known"]], "references": [["https://example.org/a"]],
+           "license": ["MIT"], "fields": [["r0", "User"]]}
+# values the rule parser rejects; with collect_errors=True they are collected and the rule (log source, detection) is kept
+META_BAD = {"status": ["testing", 5], "level": ["urgent", ["high"]], "date": ["2024/31/01", "yesterday"], "modified": ["31.01.2024"],
+            "tags": [["nodot"], "attack.t1059"], "author": [["a", "b"]], "description": [["x"]], "falsepositives": ["none"],
+            "references": ["https://example.org/a"], "license": [1], "fields": ["r0"]}
+ENTRIES = ["from_dicts", "from_yaml", "objects", "apply_filters"]
+
+
+def gen_load(rnd, case):
+    """how the documents reach the collection: their order, the entry point, error collection, rule metadata.  None of it
+    is mentioned by the property: applicability depends on log source and rule list only."""
+    n = len(case["rules"]) + len(case["filters"])
+    order = list(range(n))
+    rnd.shuffle(order)
+    case["order"] = order
+    case["entry"] = rnd.choice(ENTRIES)
+    case["collect"] = rnd.random() < 0.5
+    for r in case["rules"]:
+        for k in rnd.sample(sorted(META_OK), rnd.randint(0, 3)):
+            bad = case["collect"] and rnd.random() < 0.4
+            r[k] = copy.deepcopy(rnd.choice((META_BAD if bad else META_OK)[k]))
+    return case
+
+
 def gen_cases(tier, seed, gen, effort):
     rnd = random.Random(seed * 6151 + 11)
     thorough = tier == "thorough"
@@ -108,13 +139,31 @@ def gen_cases(tier, seed, gen, effort):
         c["rules"][0]["detection"] = {"_x": {"r0": "v"}, "sel": {"r1": "w"}, "condition": "sel and not 1 of _*"}
         c["d10b"] = True
         cases.append(c)
+    # load stream: document order x entry point x error collection x rule metadata
+    rnd2 = random.Random(seed * 7919 + 1111)
+    for _ in range((700 if not thorough else 12000) * effort):
+        cases.append(gen_load(rnd2, gen_case(rnd2)))
     return cases, False
 
 
 def run_impl(case):
     from sigma.collection import SigmaCollection
     try:
-        coll = SigmaCollection.from_dicts(copy.deepcopy(case["rules"] + case["filters"]))
+        docs = copy.deepcopy(case["rules"] + case["filters"])
+        docs = [docs[i] for i in case.get("order", range(len(docs)))]
+        entry, collect = case.get("entry", "from_dicts"), bool(case.get("collect"))
+        if entry == "from_dicts":
+            coll = SigmaCollection.from_dicts(docs, collect_errors=collect)
+        elif entry == "from_yaml":
+            import yaml
+            coll = SigmaCollection.from_yaml("---\n".join(yaml.safe_dump(d, sort_keys=False) for d in docs), collect_errors=collect)
+        elif entry == "objects":
+            from sigma.rule import SigmaRule
+            from sigma.filters import SigmaFilter
+            coll = SigmaCollection([(SigmaFilter if "filter" in d else SigmaRule).from_dict(d, collect_errors=collect) for d in docs])
+        else:
+            coll = SigmaCollection.from_dicts(docs, collect_errors=collect, collect_filters=True)
+            coll.apply_filters(coll.filters)
     except Exception as e:
         return {"outcome": outcome_of_exception(e), "stage": "load", "msg": str(e)[:200]}
     try:
@@ -202,15 +251,21 @@ def make_request(case, impl, gen):
 
 def judge(case, impl, reply):
     io = impl["outcome"]
-    key = (case["rules"], case["filters"], case.get("prefix"))
+    key = (case["rules"], case["filters"], case.get("prefix"), case.get("order"), case.get("entry"), case.get("collect"))
+    load = (f"; documents loaded in order {[(case['rules'] + case['filters'])[i]['title'] for i in case['order']]} by {case['entry']}"
+            f"{' with collect_errors=True' if case.get('collect') else ''}, rule metadata "
+            f"{ {r['title']: {k: r[k] for k in META_OK if k in r} for r in case['rules']} }") if "order" in case else ""
     applies_any = any(any(r["applies"]) for r in reply["rules"])
     nt = applies_any
     tags = [f"impl:{io.split(':')[0]}", f"rules:{len(case['rules'])}", f"filters:{len(case['filters'])}", f"applies:{applies_any}"]
+    if "order" in case:
+        tags += [f"entry:{case['entry']}", f"collect:{case['collect']}",
+                 f"filter-first:{'filter' in (case['rules'] + case['filters'])[case['order'][0]]}"]
     fid = "D10b" if case.get("d10b") else None
     if fid is None and any(_d10c(f) for f in case["filters"]):
         fid = "D10c"
     if io != "ok":
-        return Verdict("violation", f"{io} at {impl.get('stage')}: {impl.get('msg')} for rules {[r.get('detection') for r in case['rules']]} filters {[f['filter'] for f in case['filters']]}",
+        return Verdict("violation", f"{io} at {impl.get('stage')}: {impl.get('msg')} for rules {[r.get('detection') for r in case['rules']]} filters {[f['filter'] for f in case['filters']]}{load}",
                        nt, key, finding=fid, tags=tuple(tags))
     for r, rr in zip(case["rules"], reply["rules"]):
         if "correlation" in r:
@@ -231,7 +286,7 @@ def judge(case, impl, reply):
                 continue
             if res.get("readErr") or not res.get("equal"):
                 return Verdict("violation", (f"rule {r['title']} {r['detection']} with log source {r['logsource']}; filters that apply per specification: {applied} "
-                                             f"({[(f['logsource'], f['filter']) for f in case['filters']]}); emitted {q!r} (rewritten condition {impl['conds'].get(r['title'])}) "
+                                             f"({[(f['logsource'], f['filter']) for f in case['filters']]}){load}; emitted {q!r} (rewritten condition {impl['conds'].get(r['title'])}) "
                                              f"does not mean (rule) AND (applying filters): differs when exactly {c01.show_atoms(res.get('trueAtoms'))} hold; "
                                              f"only in query {c01.show_atoms(res.get('extraAtoms'))}, only in specification {c01.show_atoms(res.get('missingAtoms'))}"),
                                nt, key, finding=fid, tags=tuple(tags))
